@@ -96,6 +96,10 @@ class BodyTerms(object):
         t = self.body.blocks[bb]["term"]
         return ("call", bb, tuple(self.operand(a) for a in t["args"]))
 
+    def func_term(self, bb):
+        """Term of the callee operand (for calls through a function pointer)."""
+        return self.operand(self.body.blocks[bb]["term"]["func"])
+
     def place(self, p):
         t = self.local(p["l"])
         for e in p["p"]:
